@@ -35,8 +35,17 @@ REPO = Path(os.environ.get("VERIF_REPO", "/repo"))
 FIXTURES = Path("/repo/tests/data")  # fixtures are data, always read from the real checkout
 
 
+def quiet_warnings():
+    """The library's dependency `sigfig` calls warnings.resetwarnings(), which wipes any filter a caller
+    installs; unrecorded warnings are therefore silenced at the display hook instead of by filter."""
+    import warnings
+
+    warnings.showwarning = lambda *a, **k: None
+
+
 def use_repo():
     """Make `import numbers_parser` resolve to the working tree under test."""
+    quiet_warnings()
     src = str(REPO / "src")
     if sys.path[0] != src:
         sys.path.insert(0, src)
